@@ -672,13 +672,50 @@ type derefUse struct {
 // locksetAt computes, for each dereference (x.f) of a pointer variable in fn,
 // whether the node lock is held there (read or write).
 func locksetAt(c *Ctx, fn *core.Func) []derefUse {
+	out, _ := locksetWalk(c, fn, 0)
+	return out
+}
+
+// entryHeld: a helper introduced after the review that is only called
+// directly (not as a value, not under go, not from a function literal) at
+// sites where the node lock is held starts with the lock held.
+func entryHeld(c *Ctx, fn *core.Func, depth int) int {
+	if pinnedFuncs[fn.Name] || depth > 3 {
+		return 0
+	}
+	callers := c.G.Callers(fn)
+	if len(callers) == 0 {
+		return 0
+	}
+	for _, s := range callers {
+		if s.Ref || s.InGo || s.Call == nil || c.P.EnclosingFunc(s.Call) != ast.Node(s.Fn.Decl) || s.Fn == fn {
+			return 0
+		}
+		_, calls := locksetWalk(c, s.Fn, depth+1)
+		if calls[s.Call.Pos()] != 1 {
+			return 0
+		}
+	}
+	return 1
+}
+
+func locksetWalk(c *Ctx, fn *core.Func, depth int) ([]derefUse, map[token.Pos]int) {
+	calls := map[token.Pos]int{}
+	out := locksetBody(c, fn.Decl.Body, entryHeld(c, fn, depth), calls)
+	return out, calls
+}
+
+// locksetBody walks one body (a declaration's or a literal's). A literal that
+// may run synchronously starts with the lock state at the point where it is
+// created; a detached one (closures.go) starts without the lock.
+func locksetBody(c *Ctx, body *ast.BlockStmt, entry int, calls map[token.Pos]int) []derefUse {
 	p := c.P
 	var out []derefUse
-	g := cfg.New(fn.Decl.Body, func(call *ast.CallExpr) bool { return p.Builtin(call) != "panic" })
+	g := cfg.New(body, func(call *ast.CallExpr) bool { return p.Builtin(call) != "panic" })
 	if len(g.Blocks) == 0 {
 		return nil
 	}
-	in := map[*cfg.Block]int{g.Blocks[0]: 0} // 0 not held, 1 held
+	in := map[*cfg.Block]int{g.Blocks[0]: entry} // 0 not held, 1 held
 	seen := map[*cfg.Block]bool{g.Blocks[0]: true}
 	work := []*cfg.Block{g.Blocks[0]}
 	step := func(b *cfg.Block, h int, record bool) int {
@@ -689,7 +726,14 @@ func locksetAt(c *Ctx, fn *core.Func) []derefUse {
 				}
 			}
 			ast.Inspect(n, func(m ast.Node) bool {
-				if _, isLit := m.(*ast.FuncLit); isLit {
+				if fl, isLit := m.(*ast.FuncLit); isLit {
+					if record {
+						e := h
+						if c.detachedLit(fl) {
+							e = 0
+						}
+						out = append(out, locksetBody(c, fl.Body, e, calls)...)
+					}
 					return false
 				}
 				switch v := m.(type) {
@@ -702,11 +746,18 @@ func locksetAt(c *Ctx, fn *core.Func) []derefUse {
 							h = 0
 						}
 					}
+					if record {
+						calls[v.Pos()] = h
+					}
 				case *ast.SelectorExpr:
 					if record {
 						if id, ok := ast.Unparen(v.X).(*ast.Ident); ok {
 							if o := p.Info.Uses[id]; o != nil {
 								if _, isPtr := o.Type().Underlying().(*types.Pointer); isPtr && p.Info.Selections[v] != nil && p.Info.Selections[v].Kind() == types.FieldVal {
+									if fv, _ := p.Info.Selections[v].Obj().(*types.Var); fv != nil && !c.writtenFields()[fv] {
+										// a field nobody assigns after construction (a record's name): reading it needs no lock
+										return true
+									}
 									out = append(out, derefUse{o, v.Pos(), h == 1})
 								}
 							}
@@ -741,6 +792,62 @@ func locksetAt(c *Ctx, fn *core.Func) []derefUse {
 	return out
 }
 
+// writtenFields: the struct fields some statement of the package assigns
+// (x.f = v, x.f op= v, x.f++) or takes the address of. A field outside this
+// set is fixed when its struct is built.
+func (c *Ctx) writtenFields() map[*types.Var]bool {
+	if m, ok := c.models["writtenFields"]; ok {
+		return m.(map[*types.Var]bool)
+	}
+	p := c.P
+	out := map[*types.Var]bool{}
+	add := func(e ast.Expr) {
+		for {
+			switch v := ast.Unparen(e).(type) {
+			case *ast.SelectorExpr:
+				if fv := p.SelField(v); fv != nil {
+					out[fv] = true
+				}
+				e = v.X
+				continue
+			case *ast.IndexExpr:
+				e = v.X
+				continue
+			case *ast.StarExpr:
+				e = v.X
+				continue
+			}
+			return
+		}
+	}
+	for _, f := range p.Files {
+		ast.Inspect(f, func(n ast.Node) bool {
+			switch v := n.(type) {
+			case *ast.AssignStmt:
+				for _, l := range v.Lhs {
+					add(l)
+				}
+			case *ast.IncDecStmt:
+				add(v.X)
+			case *ast.UnaryExpr:
+				if v.Op == token.AND {
+					add(v.X)
+				}
+			case *ast.RangeStmt:
+				if v.Key != nil {
+					add(v.Key)
+				}
+				if v.Value != nil {
+					add(v.Value)
+				}
+			}
+			return true
+		})
+	}
+	c.models["writtenFields"] = out
+	return out
+}
+
 // checkLockOrder: the held -> acquired relation over the package (through
 // calls) has no cycle.
 func checkLockOrder(c *Ctx) {
@@ -752,7 +859,10 @@ func checkLockOrder(c *Ctx) {
 	direct := map[*core.Func]map[string]bool{}
 	for _, fn := range p.SortedFuncs() {
 		direct[fn] = map[string]bool{}
-		inspectFn(fn, func(n ast.Node) bool {
+		ast.Inspect(fn.Decl.Body, func(n ast.Node) bool { // helpers are reached through SyncReach below
+			if fl, ok := n.(*ast.FuncLit); ok && c.detachedLit(fl) {
+				return false // runs on another goroutine, never under the creator's locks
+			}
 			if call, ok := n.(*ast.CallExpr); ok {
 				if mu, op := mutexName(p, call); mu != "" && (op == "Lock" || op == "RLock") {
 					direct[fn][mu] = true
@@ -770,6 +880,44 @@ func checkLockOrder(c *Ctx) {
 			}
 		}
 	}
+	// a closure that acquires a mutex which is held where the closure is created must be
+	// detached: it may only ever be started by a go statement or time.AfterFunc
+	ruleD := "a closure that takes a mutex held at the point where the closure is created (the suspicion timeout callback takes the node lock) is never run on the creating goroutine: every use of the closure, of the variable, parameter or struct field it flows through, is a go statement or time.AfterFunc"
+	c.Rule(ruleD)
+	ncl := 0
+	ord := map[string]int{}
+	for _, u := range la.units {
+		if u.Lit == nil {
+			continue
+		}
+		takes := map[string]bool{}
+		ast.Inspect(u.Lit.Body, func(n ast.Node) bool {
+			if call, ok := n.(*ast.CallExpr); ok {
+				if mu, op := mutexName(p, call); mu != "" && (op == "Lock" || op == "RLock") {
+					takes[mu] = true
+				}
+				if f := p.Callee(call); f != nil && p.ByObj[f] != nil {
+					if _, isGo := p.Parent(call).(*ast.GoStmt); !isGo {
+						for mu := range acq[p.ByObj[f]] {
+							takes[mu] = true
+						}
+					}
+				}
+			}
+			return true
+		})
+		for mu := range takes {
+			if u.Created[mu] == 0 || u.Entry[mu] != 0 {
+				continue
+			}
+			ncl++
+			root := c.rootsOf(u.Fn)[0].Name
+			ord[root+"/"+mu]++
+			c.Check(fmt.Sprintf("C20/lock-order/closure-detached/%s/%s/%d", root, mu, ord[root+"/"+mu]), ruleD, u.Lit.Pos(), c.detachedLit(u.Lit),
+				fmt.Sprintf("closure created in %s while %s is held takes %s itself and may run synchronously (a use of it, or of the variable/parameter/field it flows through, is neither a go statement nor time.AfterFunc)", u.Fn.Name, mu, mu))
+		}
+	}
+	c.Floor("closures taking a mutex held at their creation", ncl, 1)
 	edges := map[string]map[string]string{}
 	addEdge := func(a, b, why string) {
 		if a == b {
